@@ -44,6 +44,16 @@ def _ctc_set():
             ('OR', x, ('OR', y, z)), ('IMPLIES', ('IMPLIES', x, y), z), ('NOT', ('NOT', x, None), None)]
 
 
+def _purity_only_models():
+    """Attribute values no format has a notation for (non-finite floats, alone and inside containers): a
+    writer may refuse them or write something, but must not touch the model."""
+    F, R, M = sh.F, sh.R, sh.M
+    inf = float('inf')
+    return [M(F('Fa', [R(0, 1, [F('Bb', attrs=[('big', sh.freeze([1.5, inf])), ('neg', sh.freeze({'k': -inf, 'l': [inf]})), ('s', sh.freeze(inf))])])],
+                attrs=[('lst', sh.freeze([[inf, 1], 2]))])),
+            M(F('Fa', attrs=[('v', sh.freeze([inf]))]))]
+
+
 def _special_models():
     F, R, M = sh.F, sh.R, sh.M
     wide = ['ñu', '日本', 'Zeta9', 'alpha', 'Bb', 'omega_3']
@@ -102,7 +112,7 @@ def cases(tier, seed):
                 for w in WRITERS:
                     yield ('W', w, mm)
     from . import families
-    for m in list(_special_models()) + list(families.models()):
+    for m in list(_special_models()) + list(families.models()) + _purity_only_models():
         for w in WRITERS:
             yield ('W', w, m)
     for t in families.deep_trees()[::3]:
